@@ -29,7 +29,7 @@ Record cdef := { cd_kind : clskind; cd_init : option msig; cd_methods : list msi
 Record world := { w_classes : list cdef; w_funs : list msig }.
 
 (* an instance: its class, the arguments of __orig_class__ (once it exists), the attribute __pedantic_a42__ *)
-Record inst := { in_cls : nat; in_targs : option (list ann); in_table : tvenv }.
+Record inst := { i_cls : nat; i_targs : option (list ann); i_table : tvenv }.
 Definition state := list (nat * inst).      (* slot -> instance *)
 
 Fixpoint st_get (st : state) (s : nat) : option inst :=
@@ -119,11 +119,11 @@ Section Run.
         | None => (RAbsent, st)
         | Some cd =>
             match cd_init cd with
-            | None => (ROk, st_set st slot {| in_cls := c; in_targs := Some xs; in_table := [] |})
+            | None => (ROk, st_set st slot {| i_cls := c; i_targs := Some xs; i_table := [] |})
             | Some sg =>
                 (* __init__ runs before __orig_class__ is set *)
                 match run_call (refresh_of (cd_kind cd) None) sg args VNone [] with
-                | (Ok _, tb) => (ROk, st_set st slot {| in_cls := c; in_targs := Some xs; in_table := store_of (cd_kind cd) [] tb |})
+                | (Ok _, tb) => (ROk, st_set st slot {| i_cls := c; i_targs := Some xs; i_table := store_of (cd_kind cd) [] tb |})
                 | (Raise e, _) => (RExn e, st)
                 end
             end
@@ -132,16 +132,16 @@ Section Run.
         match st_get st slot with
         | None => (RAbsent, st)
         | Some i =>
-            match nth_error (w_classes w) (in_cls i) with
+            match nth_error (w_classes w) (i_cls i) with
             | None => (RAbsent, st)
             | Some cd =>
                 match nth_error (cd_methods cd) m with
                 | None => (RAbsent, st)
                 | Some sg =>
                     let k := cd_kind cd in
-                    let r := run_call (refresh_of k (in_targs i)) sg args ret (start_of k (in_table i)) in
+                    let r := run_call (refresh_of k (i_targs i)) sg args ret (start_of k (i_table i)) in
                     (to_sres (fst r),
-                     st_set st slot {| in_cls := in_cls i; in_targs := in_targs i; in_table := store_of k (in_table i) (snd r) |})
+                     st_set st slot {| i_cls := i_cls i; i_targs := i_targs i; i_table := store_of k (i_table i) (snd r) |})
                 end
             end
         end
